@@ -2,14 +2,15 @@ import Chewing.Model.Owned
 /-!
 # Invariants of the ghost ownership model (C15)
 
-* `UInv c stale`  — unless a possibly-mutating call happened since the last enumerate, the stored user-phrase
-                    iterator points into the current generation of the user dictionary;
-* `RegOK c`       — every live heap result is registered in `OWNED` with its true kind.
+* `RegSound c`    — every registry entry of an allocating kind names a live heap result of that kind: enough for
+                    `chewing_free` to be defined, and inductive over ALL histories with no assumption at all;
+* `RegOK c`       — registry = live results with their true kinds (needs the allocator's contract `heapOk`): the
+                    registry is also COMPLETE, so `chewing_free` can release every live result.
 -/
 namespace Chewing.Owned
 
-def UInv (c : Ctx) (stale : Bool) : Prop :=
-  stale = false → ∀ u, c.uiter = some u → u.epoch = c.epoch
+def RegSound (c : Ctx) : Prop :=
+  ∀ a k, lookup a c.owned = some k → k.allocates = true → lookup a c.live = some k
 
 def RegOK (c : Ctx) : Prop :=
   (∀ a k, lookup a c.live = some k → lookup a c.owned = some k ∧ k.allocates = true) ∧
@@ -35,9 +36,6 @@ theorem lookup_erase (a b : Nat) (l : List (Nat × Kind)) :
       by_cases hax : a = x
       · subst hax; simp [hx]
       · simp [hax]
-
-theorem uinv_init : UInv init false := by
-  intro _ u hu; simp [init] at hu
 
 theorem regOK_init : RegOK init := by
   constructor <;> (intro a k h; simp [init, lookup] at h)
@@ -138,136 +136,310 @@ theorem freeStep_ok (c : Ctx) (hr : RegOK c) (addr : Nat) :
         · simp only [if_neg ha] at ho' ⊢; exact h2 a k' ho' hka
       · intro b hb; simp [lookup_erase, hb]
 
+/-! ## `RegSound`: no assumption on the allocator -/
+
+theorem regOK_sound {c : Ctx} (h : RegOK c) : RegSound c := h.2
+
+theorem regSound_init : RegSound init := by
+  intro a k h; simp [init, lookup] at h
+
+theorem regSound_of_same_heap {c c' : Ctx} (h : RegSound c) (ho : c'.owned = c.owned) (hl : c'.live = c.live) :
+    RegSound c' := by
+  unfold RegSound; rw [ho, hl]; exact h
+
+theorem regSound_register (c : Ctx) (addr : Nat) (k : Kind) (h : RegSound c) : RegSound (register c addr k) := by
+  intro a k' ho hka
+  unfold register at ho ⊢
+  simp only [lookup_cons, lookup_erase] at ho
+  by_cases ha : a = addr
+  · subst ha
+    rw [if_pos rfl] at ho
+    have hkk : k = k' := Option.some.inj ho
+    subst hkk
+    simp [hka, lookup_cons]
+  · rw [if_neg ha, if_neg ha] at ho
+    have := h a k' ho hka
+    cases hk : k.allocates
+    · simpa [hk] using this
+    · simp [lookup_cons, ha]; exact this
+
+/-- `chewing_free` is defined on every sound registry, for every pointer -/
+theorem freeStep_defined (c : Ctx) (hr : RegSound c) (addr : Nat) :
+    ∃ c', freeStep true c addr = .ok (c', 0) ∧ RegSound c' := by
+  unfold freeStep
+  by_cases h0 : addr = 0
+  · rw [if_pos h0]; exact ⟨c, rfl, hr⟩
+  rw [if_neg h0]
+  cases ho : lookup addr c.owned with
+  | none => exact ⟨c, rfl, hr⟩
+  | some k =>
+    simp only [if_true]
+    cases hk : k.allocates
+    · simp only [Bool.not_false, if_true]
+      refine ⟨_, rfl, ?_⟩
+      intro a k' ho' hka
+      simp only [lookup_erase] at ho'
+      by_cases ha : a = addr
+      · simp [ha] at ho'
+      · rw [if_neg ha] at ho'; exact hr a k' ho' hka
+    · simp only [Bool.not_true, Bool.false_eq_true, if_false]
+      have hl := hr addr k ho hk
+      simp only [hl, if_true]
+      refine ⟨_, rfl, ?_⟩
+      intro a k' ho' hka
+      simp only [lookup_erase] at ho' ⊢
+      by_cases ha : a = addr
+      · simp [ha] at ho'
+      · simp only [if_neg ha] at ho' ⊢; exact hr a k' ho' hka
+
 /-! ## one step -/
 
-/-- the peek/next of a collected iterator never fails -/
-theorem step_collected_ok (c : Ctx) (op : Op)
-    (h : op ≠ .upHasNext ∧ op ≠ .upGet ∧ ∀ a, op ≠ .free a) : ∃ c' r, step c op = .ok (c', r) := by
-  obtain ⟨h1, h2, h3⟩ := h
+/-- every call other than `chewing_free` is defined in EVERY state: the four stored iterators own their data -/
+theorem step_collected_ok (c : Ctx) (op : Op) (h : ∀ a, op ≠ .free a) : ∃ c' r, step c op = .ok (c', r) := by
   cases op <;> simp only [step] <;> first
     | exact ⟨_, _, rfl⟩
-    | (exfalso; first | exact h1 rfl | exact h2 rfl | exact h3 _ rfl)
+    | (exfalso; exact h _ rfl)
     | (split <;> first | exact ⟨_, _, rfl⟩ | (split <;> exact ⟨_, _, rfl⟩))
 
-/-- a step that uses the user-phrase iterator under the discipline is defined and keeps both invariants -/
-theorem step_ok (c : Ctx) (stale : Bool) (op : Op) (hu : UInv c stale) (hr : RegOK c)
-    (hd : (!op.usesU || !stale) = true) (hh : heapOk c op = true) :
-    ∃ c' r, step c op = .ok (c', r) ∧ UInv c' (staleAfter stale op) ∧ RegOK c' := by
+/-- … and touches neither the registry nor the ghost heap, except by registering a fresh result -/
+theorem step_heap (c : Ctx) (op : Op) (h : ∀ a, op ≠ .free a) :
+    ∃ c' r, step c op = .ok (c', r) ∧
+      ((c'.owned = c.owned ∧ c'.live = c.live) ∨
+       ∃ c0 addr k, c0.owned = c.owned ∧ c0.live = c.live ∧ c' = register c0 addr k ∧
+         (heapOk c op = true → lookup addr c.live = none)) := by
   cases op with
-  | mutate =>
-    refine ⟨_, _, rfl, ?_, regOK_of_same_heap hr rfl rfl⟩
-    intro h; simp [staleAfter] at h
-  | other => exact ⟨_, _, rfl, hu, hr⟩
-  | reset =>
-    refine ⟨_, _, rfl, ?_, regOK_of_same_heap hr rfl rfl⟩
-    intro _ u hu'; simp at hu'
-  | upEnumerate n =>
-    refine ⟨_, _, rfl, ?_, regOK_of_same_heap hr rfl rfl⟩
-    intro _ u hu'; simp at hu'; subst hu'; rfl
+  | free a => exact absurd rfl (h a)
+  | mutate => exact ⟨_, _, rfl, Or.inl ⟨rfl, rfl⟩⟩
+  | other => exact ⟨_, _, rfl, Or.inl ⟨rfl, rfl⟩⟩
+  | reset => exact ⟨_, _, rfl, Or.inl ⟨rfl, rfl⟩⟩
+  | upEnumerate n => exact ⟨_, _, rfl, Or.inl ⟨rfl, rfl⟩⟩
   | upHasNext =>
-    have hs : stale = false := by simpa [Op.usesU] using hd
     simp only [step]
-    cases hcu : c.uiter with
-    | none => exact ⟨_, _, rfl, hu, hr⟩
+    cases c.uiter with
+    | none => exact ⟨_, _, rfl, Or.inl ⟨rfl, rfl⟩⟩
     | some u =>
-      have he := hu hs u hcu
-      have hf : uFresh c u = true := by simp [uFresh, he]
-      simp only [hf, Bool.not_true, Bool.and_false, Bool.false_eq_true, if_false]
-      cases hp : u.it.peek with
-      | mk it' b =>
-        cases b
-        · refine ⟨_, _, rfl, ?_, regOK_of_same_heap hr rfl rfl⟩
-          intro _ u' hu'; simp at hu'
-        · refine ⟨_, _, rfl, ?_, regOK_of_same_heap hr rfl rfl⟩
-          intro _ u' hu'; simp at hu'; subst hu'; exact he
+      dsimp only
+      split <;> exact ⟨_, _, rfl, Or.inl ⟨rfl, rfl⟩⟩
   | upGet =>
-    have hs : stale = false := by simpa [Op.usesU] using hd
     simp only [step]
-    cases hcu : c.uiter with
-    | none => exact ⟨_, _, rfl, hu, hr⟩
-    | some u =>
-      have he := hu hs u hcu
-      have hf : uFresh c u = true := by simp [uFresh, he]
-      simp only [hf, Bool.not_true, Bool.and_false, Bool.false_eq_true, if_false]
-      refine ⟨_, _, rfl, ?_, regOK_of_same_heap hr rfl rfl⟩
-      intro _ u' hu'; simp at hu'; subst hu'; exact he
-  | candEnumerate sel n =>
-    refine ⟨_, _, rfl, ?_, ?_⟩
-    · cases sel <;> exact hu
-    · cases sel <;> exact regOK_of_same_heap hr rfl rfl
+    cases c.uiter with
+    | none => exact ⟨_, _, rfl, Or.inl ⟨rfl, rfl⟩⟩
+    | some u => exact ⟨_, _, rfl, Or.inl ⟨rfl, rfl⟩⟩
+  | candEnumerate sel n => cases sel <;> exact ⟨_, _, rfl, Or.inl ⟨rfl, rfl⟩⟩
   | candHasNext sel =>
     simp only [step]
     cases sel
-    · exact ⟨_, _, rfl, hu, hr⟩
-    · cases hc : c.cand with
-      | none => exact ⟨_, _, rfl, hu, hr⟩
-      | some p => exact ⟨_, _, rfl, hu, regOK_of_same_heap hr rfl rfl⟩
+    · exact ⟨_, _, rfl, Or.inl ⟨rfl, rfl⟩⟩
+    · cases c.cand with
+      | none => exact ⟨_, _, rfl, Or.inl ⟨rfl, rfl⟩⟩
+      | some p => exact ⟨_, _, rfl, Or.inl ⟨rfl, rfl⟩⟩
   | candString addr =>
-    simp only [heapOk, Bool.and_eq_true, Option.isNone_iff_eq_none] at hh
     simp only [step]
-    cases hc : c.cand with
-    | none => exact ⟨_, _, rfl, hu, regOK_register c addr _ hr hh.2⟩
+    cases c.cand with
+    | none =>
+      refine ⟨_, _, rfl, Or.inr ⟨c, addr, .cstring, rfl, rfl, rfl, ?_⟩⟩
+      intro hh; simp only [heapOk, Bool.and_eq_true, Option.isNone_iff_eq_none] at hh; exact hh.2
     | some p =>
-      refine ⟨_, _, rfl, hu, ?_⟩
-      exact regOK_register { c with cand := some p.next.1 } addr _ (regOK_of_same_heap hr rfl rfl) hh.2
+      refine ⟨_, _, rfl, Or.inr ⟨{ c with cand := some p.next.1 }, addr, .cstring, rfl, rfl, rfl, ?_⟩⟩
+      intro hh; simp only [heapOk, Bool.and_eq_true, Option.isNone_iff_eq_none] at hh; exact hh.2
   | candStringStatic =>
     simp only [step]
-    cases hc : c.cand with
-    | none => exact ⟨_, _, rfl, hu, hr⟩
-    | some p => exact ⟨_, _, rfl, hu, regOK_of_same_heap hr rfl rfl⟩
-  | intvEnumerate n => exact ⟨_, _, rfl, hu, regOK_of_same_heap hr rfl rfl⟩
+    cases c.cand with
+    | none => exact ⟨_, _, rfl, Or.inl ⟨rfl, rfl⟩⟩
+    | some p => exact ⟨_, _, rfl, Or.inl ⟨rfl, rfl⟩⟩
+  | intvEnumerate n => exact ⟨_, _, rfl, Or.inl ⟨rfl, rfl⟩⟩
   | intvHasNext =>
     simp only [step]
-    cases hc : c.intv with
-    | none => exact ⟨_, _, rfl, hu, hr⟩
-    | some p => exact ⟨_, _, rfl, hu, regOK_of_same_heap hr rfl rfl⟩
+    cases c.intv with
+    | none => exact ⟨_, _, rfl, Or.inl ⟨rfl, rfl⟩⟩
+    | some p => exact ⟨_, _, rfl, Or.inl ⟨rfl, rfl⟩⟩
   | intvGet =>
     simp only [step]
-    cases hc : c.intv with
-    | none => exact ⟨_, _, rfl, hu, hr⟩
-    | some p => exact ⟨_, _, rfl, hu, regOK_of_same_heap hr rfl rfl⟩
-  | kbEnumerate n => exact ⟨_, _, rfl, hu, regOK_of_same_heap hr rfl rfl⟩
+    cases c.intv with
+    | none => exact ⟨_, _, rfl, Or.inl ⟨rfl, rfl⟩⟩
+    | some p => exact ⟨_, _, rfl, Or.inl ⟨rfl, rfl⟩⟩
+  | kbEnumerate n => exact ⟨_, _, rfl, Or.inl ⟨rfl, rfl⟩⟩
   | kbHasNext =>
     simp only [step]
-    cases hc : c.kbt with
-    | none => exact ⟨_, _, rfl, hu, hr⟩
-    | some p => exact ⟨_, _, rfl, hu, regOK_of_same_heap hr rfl rfl⟩
+    cases c.kbt with
+    | none => exact ⟨_, _, rfl, Or.inl ⟨rfl, rfl⟩⟩
+    | some p => exact ⟨_, _, rfl, Or.inl ⟨rfl, rfl⟩⟩
   | kbString addr =>
-    simp only [heapOk, Bool.and_eq_true, Option.isNone_iff_eq_none] at hh
     simp only [step]
-    cases hc : c.kbt with
-    | none => exact ⟨_, _, rfl, hu, regOK_register c addr _ hr hh.2⟩
+    cases c.kbt with
+    | none =>
+      refine ⟨_, _, rfl, Or.inr ⟨c, addr, .cstring, rfl, rfl, rfl, ?_⟩⟩
+      intro hh; simp only [heapOk, Bool.and_eq_true, Option.isNone_iff_eq_none] at hh; exact hh.2
     | some p =>
-      refine ⟨_, _, rfl, hu, ?_⟩
-      exact regOK_register { c with kbt := some p.next.1 } addr _ (regOK_of_same_heap hr rfl rfl) hh.2
+      refine ⟨_, _, rfl, Or.inr ⟨{ c with kbt := some p.next.1 }, addr, .cstring, rfl, rfl, rfl, ?_⟩⟩
+      intro hh; simp only [heapOk, Bool.and_eq_true, Option.isNone_iff_eq_none] at hh; exact hh.2
   | kbStringStatic =>
     simp only [step]
-    cases hc : c.kbt with
-    | none => exact ⟨_, _, rfl, hu, hr⟩
-    | some p => exact ⟨_, _, rfl, hu, regOK_of_same_heap hr rfl rfl⟩
+    cases c.kbt with
+    | none => exact ⟨_, _, rfl, Or.inl ⟨rfl, rfl⟩⟩
+    | some p => exact ⟨_, _, rfl, Or.inl ⟨rfl, rfl⟩⟩
   | heapGet addr k =>
-    simp only [heapOk, Bool.and_eq_true, Option.isNone_iff_eq_none] at hh
-    exact ⟨_, _, rfl, hu, regOK_register c addr k hr hh.2⟩
-  | free addr =>
-    obtain ⟨c', hs, hr', hu1, hu2, _, _⟩ := freeStep_ok c hr addr
-    refine ⟨c', 0, hs, ?_, hr'⟩
-    intro h u hcu
-    rw [hu1] at hcu; rw [hu2]; exact hu h u hcu
+    refine ⟨_, _, rfl, Or.inr ⟨c, addr, k, rfl, rfl, rfl, ?_⟩⟩
+    intro hh; simp only [heapOk, Bool.and_eq_true, Option.isNone_iff_eq_none] at hh; exact hh.2
+
+/-- EVERY call is defined in every state with a sound registry, and keeps it sound — no premise on the call -/
+theorem step_defined (c : Ctx) (op : Op) (hr : RegSound c) : ∃ c' r, step c op = .ok (c', r) ∧ RegSound c' := by
+  by_cases hf : ∃ a, op = .free a
+  · obtain ⟨a, rfl⟩ := hf
+    obtain ⟨c', hs, hr'⟩ := freeStep_defined c hr a
+    exact ⟨c', 0, hs, hr'⟩
+  · obtain ⟨c', r, hs, hh⟩ := step_heap c op (fun a ha => hf ⟨a, ha⟩)
+    refine ⟨c', r, hs, ?_⟩
+    rcases hh with ⟨ho, hl⟩ | ⟨c0, addr, k, ho, hl, rfl, _⟩
+    · exact regSound_of_same_heap hr ho hl
+    · exact regSound_register c0 addr k (regSound_of_same_heap hr ho hl)
+
+/-- under the allocator's contract the registry also stays complete -/
+theorem step_ok (c : Ctx) (op : Op) (hr : RegOK c) (hh : heapOk c op = true) :
+    ∃ c' r, step c op = .ok (c', r) ∧ RegOK c' := by
+  by_cases hf : ∃ a, op = .free a
+  · obtain ⟨a, rfl⟩ := hf
+    obtain ⟨c', hs, hr', _⟩ := freeStep_ok c hr a
+    exact ⟨c', 0, hs, hr'⟩
+  · obtain ⟨c', r, hs, hx⟩ := step_heap c op (fun a ha => hf ⟨a, ha⟩)
+    refine ⟨c', r, hs, ?_⟩
+    rcases hx with ⟨ho, hl⟩ | ⟨c0, addr, k, ho, hl, rfl, hfree⟩
+    · exact regOK_of_same_heap hr ho hl
+    · exact regOK_register c0 addr k (regOK_of_same_heap hr ho hl) (by rw [hl]; exact hfree hh)
+
+/-- calls other than `chewing_Reset` and the three functions of the user-phrase protocol leave the stored user-phrase
+iterator alone -/
+theorem step_uiter_frame (c : Ctx) (op : Op)
+    (h : op ≠ .reset ∧ (∀ n, op ≠ .upEnumerate n) ∧ op ≠ .upHasNext ∧ op ≠ .upGet) (c' : Ctx) (r : Res)
+    (hs : step c op = .ok (c', r)) : c'.uiter = c.uiter := by
+  obtain ⟨h1, h2, h3, h4⟩ := h
+  cases op with
+  | reset => exact absurd rfl h1
+  | upEnumerate n => exact absurd rfl (h2 n)
+  | upHasNext => exact absurd rfl h3
+  | upGet => exact absurd rfl h4
+  | free a =>
+    simp only [step, freeStep] at hs
+    repeat' split at hs
+    all_goals first | (cases hs; rfl) | cases hs
+  | _ =>
+    simp only [step] at hs
+    repeat' split at hs
+    all_goals first | (cases hs; rfl) | cases hs
 
 /-! ## histories -/
 
-theorem run_ok (ops : List Op) : ∀ (c : Ctx) (stale : Bool), UInv c stale → RegOK c →
-    disciplined stale ops = true → heapOkRun c ops = true →
+theorem run_cons_ok {c c' c'' : Ctx} {op : Op} {ops : List Op} {r : Res} {rs : List Res}
+    (hs : step c op = .ok (c', r)) (hr : run c' ops = .ok (c'', rs)) : run c (op :: ops) = .ok (c'', r :: rs) := by
+  simp [run, hs, hr]
+
+/-- **no history is undefined** -/
+theorem run_defined (ops : List Op) : ∀ (c : Ctx), RegSound c → ∃ c' rs, run c ops = .ok (c', rs) ∧ RegSound c' := by
+  induction ops with
+  | nil => intro c hr; exact ⟨c, [], rfl, hr⟩
+  | cons op ops ih =>
+    intro c hr
+    obtain ⟨c1, r, hs, hr1⟩ := step_defined c op hr
+    obtain ⟨c2, rs, hrun, hr2⟩ := ih c1 hr1
+    exact ⟨c2, r :: rs, by simp [run, hs, hrun], hr2⟩
+
+theorem run_ok (ops : List Op) : ∀ (c : Ctx), RegOK c → heapOkRun c ops = true →
     ∃ c' rs, run c ops = .ok (c', rs) ∧ RegOK c' := by
   induction ops with
-  | nil => intro c _ _ hr _ _; exact ⟨c, [], rfl, hr⟩
+  | nil => intro c hr _; exact ⟨c, [], rfl, hr⟩
   | cons op ops ih =>
-    intro c stale hu hr hd hh
-    simp only [disciplined, Bool.and_eq_true] at hd
+    intro c hr hh
     simp only [heapOkRun, Bool.and_eq_true] at hh
-    obtain ⟨c1, r, hs, hu1, hr1⟩ := step_ok c stale op hu hr hd.1 hh.1
+    obtain ⟨c1, r, hs, hr1⟩ := step_ok c op hr hh.1
     rw [hs] at hh
-    obtain ⟨c2, rs, hrun, hr2⟩ := ih c1 _ hu1 hr1 hd.2 hh.2
+    obtain ⟨c2, rs, hrun, hr2⟩ := ih c1 hr1 hh.2
     exact ⟨c2, r :: rs, by simp [run, hs, hrun], hr2⟩
+
+/-! ## an exhausted collected iterator stays exhausted (what `.fuse()` / `Vec::into_iter` guarantee) -/
+
+/-- a cached end means the inner iterator is exhausted (holds for every `PeekVec` the model builds) -/
+def PeekVec.WF (p : PeekVec) : Prop := p.peeked = some false → p.rest = 0
+
+/-- items left, counting Peekable's cache -/
+def PeekVec.left (p : PeekVec) : Nat := p.rest + (if p.peeked = some true then 1 else 0)
+
+theorem PeekVec.new_wf (n : Nat) : (PeekVec.new n).WF ∧ (PeekVec.new n).left = n := by
+  constructor
+  · intro h; simp [PeekVec.new] at h
+  · simp [PeekVec.new, PeekVec.left]
+
+theorem PeekVec.next_spec (p : PeekVec) (hw : p.WF) :
+    (p.next).2 = decide (0 < p.left) ∧ (p.next).1.left = p.left - 1 ∧ (p.next).1.WF := by
+  obtain ⟨rest, peeked⟩ := p
+  unfold PeekVec.WF at hw
+  unfold PeekVec.next PeekVec.left PeekVec.WF
+  cases peeked with
+  | none =>
+    by_cases h : 0 < rest
+    · simp [h]
+    · have : rest = 0 := by omega
+      subst this; simp
+  | some b =>
+    cases b
+    · have : rest = 0 := hw rfl
+      subst this; simp
+    · simp
+
+theorem PeekVec.peek_spec (p : PeekVec) (hw : p.WF) :
+    (p.peek).2 = decide (0 < p.left) ∧ (p.peek).1.left = p.left ∧ (p.peek).1.WF := by
+  obtain ⟨rest, peeked⟩ := p
+  unfold PeekVec.WF at hw
+  unfold PeekVec.peek PeekVec.left PeekVec.WF
+  cases peeked with
+  | none =>
+    by_cases h : 0 < rest
+    · simp [h]; omega
+    · have : rest = 0 := by omega
+      subst this; simp
+  | some b =>
+    cases b
+    · have : rest = 0 := hw rfl
+      subst this; simp
+    · simp
+
+/-- reading a keyboard-type enumeration `m` times (static getter): the items left answer 1, EVERY later call 0 —
+the enumeration stops at its end however often it is read -/
+theorem kb_walk_static (m : Nat) : ∀ (c : Ctx) (p : PeekVec), c.kbt = some p → p.WF →
+    ∃ c', run c (List.replicate m .kbStringStatic) =
+      .ok (c', List.replicate (min p.left m) 1 ++ List.replicate (m - p.left) 0) := by
+  induction m with
+  | zero => intro c p _ _; exact ⟨c, by simp [run]⟩
+  | succ m ih =>
+    intro c p hc hw
+    obtain ⟨hb, hl, hw'⟩ := p.next_spec hw
+    have hs : step c .kbStringStatic = .ok ({ c with kbt := some p.next.1 }, bool2res p.next.2) := by
+      simp only [step, hc]
+    obtain ⟨c', hrun⟩ := ih { c with kbt := some p.next.1 } p.next.1 rfl hw'
+    refine ⟨c', ?_⟩
+    simp only [List.replicate_succ, run, hs, hrun]
+    rw [hl, hb]
+    cases hleft : p.left with
+    | zero => simp [bool2res, List.replicate_succ]
+    | succ l => simp [bool2res, Nat.succ_min_succ, List.replicate_succ]
+
+/-- the earlier un-fused `u8` counter: pull number `start + k` is defined while it stays below 256 -/
+theorem KbOld.pulls_overflow (valid : Nat) : KbOld.pulls 256 { start := 0, valid := valid } = none := by
+  have key : ∀ n s, s + n ≥ 256 → KbOld.pulls n { start := s, valid := valid } = none ∨ n = 0 := by
+    intro n
+    induction n with
+    | zero => intro _ _; exact Or.inr rfl
+    | succ n ih =>
+      intro s h
+      left
+      unfold KbOld.pulls KbOld.pull
+      by_cases hs : s + 1 ≥ 256
+      · simp [hs]
+      · simp only [hs, if_false]
+        rcases ih (s + 1) (by omega) with h1 | h1
+        · simp [h1]
+        · omega
+  rcases key 256 0 (by omega) with h | h
+  · exact h
+  · omega
 
 end Chewing.Owned
